@@ -374,7 +374,7 @@ def half(run, fams, prog):
 
 
 def c01(run):
-    return check(run, "C01", {"C01"}, [("build", TYPE_PARTS), ("reuse", ONE_PART), ("api", 2), ("apifull", 2 if run.tier == "thorough" else 1)],
+    return check(run, "C01", {"C01"}, [("build", TYPE_PARTS), ("reuse", ONE_PART), ("api", 2), ("apifull", 1)],
                  BUILD_RULE + "TLC replays the setters on the PacketAPI model and requires every accessor of the decoded packet "
                  "to equal the model and the second encoding to equal the first; the same round trip at the end of every setter history "
                  "of MC_API (all ordered pairs of calls from the constructor's packet; every call, thorough every pair, from a packet "
@@ -406,7 +406,7 @@ def c04(run):
                  "lengths), all valid frames, and bodies given directly to UnmarshalBinary of all 16 types; a Panic event or a "
                  "result that is not exactly (packet, nil) or (nil, error) is a violation",
                  ["D9: packets left behind by a failed UnmarshalBinary are values a program can hold"],
-                 randoms=20000 if run.tier == "quick" else 400000, std_readers=10)
+                 randoms=20000 if run.tier == "quick" else 150000, std_readers=10)
 
 
 DECODE_STEPS_CFG = ("SPECIFICATION Spec\nINVARIANT WorkBound\nINVARIANT OffsetInData\nINVARIANT BudgetImplied\nPROPERTY ErrorIsSticky\n"
@@ -421,7 +421,7 @@ def c05(run):
                  "a packet with more list elements than the frame has bytes is a violation; DecodeSteps.tla model-checks that the "
                  "guarded reader with leave-on-error loops terminates within the bound for every frame length and outcome",
                  assumptions=["work bound MaxSteps(frame) = 4*Len(frame)+64 guarded reads", "watchdog 2 s / 1 GiB per program, confirmed by a re-run alone"],
-                 randoms=20000 if run.tier == "quick" else 400000, std_readers=10)
+                 randoms=20000 if run.tier == "quick" else 150000, std_readers=10)
 
 
 def count_proof(run, module, what):
@@ -479,8 +479,8 @@ def c09(run):
 
 
 def c10(run):
-    return check(run, "C10", {"C10"}, [("wfault", TYPE_PARTS), ("build", TYPE_PARTS), ("reuse", ONE_PART), ("apifull", 2 if run.tier == "thorough" else 1),
-                                       ("apidec", 2 if run.tier == "thorough" else 1)] + ([("apinew", 2)] if run.tier == "thorough" else []),
+    return check(run, "C10", {"C10"}, [("wfault", TYPE_PARTS), ("build", TYPE_PARTS), ("reuse", ONE_PART), ("apifull", 1),
+                                       ("apidec", 1)],
                  "packets of the build family written to a writer that accepts everything, and small packets written to a "
                  "writer that accepts exactly k bytes then reports E for every k below the frame length; malformed but "
                  "constructible packets and Undefined; seeded random setter histories with WriteTo between the calls (a packet that grows "
@@ -495,7 +495,7 @@ def c10(run):
 
 
 def c11(run):
-    return check(run, "C11", {"C11"}, [("build", TYPE_PARTS), ("own", ONE_PART), ("apifull", 2 if run.tier == "thorough" else 1), ("apidec", 2 if run.tier == "thorough" else 1),
+    return check(run, "C11", {"C11"}, [("build", TYPE_PARTS), ("own", ONE_PART), ("apifull", 1), ("apidec", 1),
                                        ("conc", TYPE_PARTS)],
                  BUILD_RULE + "every WriteTo of an unchanged model state must give the bytes of the first one (8 repeats in a "
                  "row plus writes before and after String/Dump/WellFormed), and the accessor record must be unchanged by "
@@ -551,7 +551,7 @@ def c19(run):
                  "values of all 16 types, and for all 256 values of each rendered byte; seeded random damage to valid frames "
                  "(quick tier: a seed-dependent third of the mutant programs)", ["D9"],
                  keep=(lambda pr: pr.get("fam") != "mutants" or run.tier == "thorough" or (zlib.crc32(json.dumps(pr["steps"][0]).encode()) + run.seed) % 3 == 0),
-                 randoms=10000 if run.tier == "quick" else 200000)
+                 randoms=10000 if run.tier == "quick" else 80000)
 
 
 def c13(run):
